@@ -305,9 +305,11 @@ class extract_visitor(NodeVisitor):
 
         for it in items:
             if it.optional_vars:
+                # a target is bound as soon as its own item is entered: later items may read it
+                loc = get_expr_end(it.optional_vars)
                 for nn, _idx in get_indexes_for_target(it.optional_vars, [], []):
                     name = nn  # type: ast.Name # type: ignore[assignment]
-                    self.flow.add_name(AssignedName(name.id, np(node.body[0]), np(name), node))
+                    self.flow.add_name(AssignedName(name.id, loc, np(name), node))
 
         self.generic_visit(node)
 
